@@ -2,9 +2,11 @@ package transport
 
 import (
 	"fmt"
+	"reflect"
 	"strings"
 	"testing"
 	"time"
+	"unsafe"
 
 	"github.com/IrineSistiana/mosdns/v5/zz_verif/vr"
 	"github.com/IrineSistiana/mosdns/v5/zz_verif/vs"
@@ -20,6 +22,38 @@ func distinct(xs []int) int {
 	return len(m)
 }
 
+// connsIn lists the connections held by a container field of the transport,
+// whatever its shape (set, map to anything, slice): read through reflection so
+// that the harness survives a change of the pool's data structure.
+func connsIn(obj any, field string) []*reusableConn {
+	f := reflect.ValueOf(obj).Elem().FieldByName(field)
+	if !f.IsValid() {
+		return nil
+	}
+	f = reflect.NewAt(f.Type(), unsafe.Pointer(f.UnsafeAddr())).Elem()
+	var out []*reusableConn
+	add := func(v reflect.Value) {
+		if !v.CanInterface() {
+			return
+		}
+		if c, ok := v.Interface().(*reusableConn); ok && c != nil {
+			out = append(out, c)
+		}
+	}
+	switch f.Kind() {
+	case reflect.Map:
+		for it := f.MapRange(); it.Next(); {
+			add(it.Key())
+			add(it.Value())
+		}
+	case reflect.Slice, reflect.Array:
+		for i := 0; i < f.Len(); i++ {
+			add(f.Index(i))
+		}
+	}
+	return out
+}
+
 func c08Scenario(name string, o tOpt, d int, allMustSucceed bool) vr.Scenario {
 	var sys *tsys
 	var stalePooled string
@@ -33,14 +67,14 @@ func c08Scenario(name string, o tOpt, d int, allMustSucceed bool) vr.Scenario {
 			switch t := s.tr.(type) {
 			case *ReuseConnTransport:
 				t.m.Lock()
-				for c := range t.idleConns {
+				for _, c := range connsIn(t, "idleConns") {
 					select {
 					case <-c.closeNotify:
 						stalePooled = "a closed connection is still in the idle pool"
 					default:
 					}
 				}
-				for c := range t.conns {
+				for _, c := range connsIn(t, "conns") {
 					select {
 					case <-c.closeNotify:
 						stalePooled = "a closed connection is still registered in the transport"
@@ -141,6 +175,9 @@ func TestVerifC08(t *testing.T) {
 		c08Scenario("pipeline-udp-c2-seq2-blackhole", tOpt{Kind: "pipeline-udp", Callers: 2, Seq: 2, Srv: srvOpt{Silent: true}}, d2, false),
 		// five idle, healthy connections; then the server goes mute and one more query with a 3 s deadline arrives
 		c08Scenario("reuse-c5+1-idle-pool-then-mute", tOpt{Kind: "reuse", Callers: 6, StageTwo: 1, Srv: srvOpt{AnswerAll: true, MuteAfter: 5}, CtxMode: []int{0, 0, 0, 0, 0, 1}, FreezeStage1: true}, 1, false),
+		// three / four idle, healthy connections; the server closes some of them one by one in any order; then one more query
+		c08Scenario("reuse-c3+1-idle-pool-closed-in-any-order", tOpt{Kind: "reuse", Callers: 4, StageTwo: 1, Srv: srvOpt{AnswerAll: true}, CloseIdleOrder: true, FreezeStage1: true}, 1, true),
+		c08Scenario("reuse-c4+1-idle-pool-closed-in-any-order", tOpt{Kind: "reuse", Callers: 5, StageTwo: 1, Srv: srvOpt{AnswerAll: true}, CloseIdleOrder: true, FreezeStage1: true}, 1, true),
 		c08Scenario("reuse-seq3-kill", tOpt{Kind: "reuse", Callers: 1, Seq: 3, Srv: kill}, d, false),
 		c08Scenario("reuse-c2-seq2-kill", tOpt{Kind: "reuse", Callers: 2, Seq: 2, Srv: kill}, d2, false),
 		c08Scenario("pipeline-tcp-c2-seq2-kill", tOpt{Kind: "pipeline-tcp", Callers: 2, Seq: 2, Srv: kill}, d2, false),
